@@ -70,6 +70,9 @@ def run(ctx):
         ctx.count("oracle_evaluated")
     for (c, res, ml, il) in results[:3]:
         ctx.sample({"case": list(c), "impl": il.split(" | ")[0]})
+    EC.shared_component_stage(
+        ctx, lambda ctx, case, res, base, w: check(ctx, "shared", case[3], case[0], case[1], res, base,
+                                                  {"world": w, "case": list(case), "program": res, "baseline": base}))
     EC.wholerun_stage(ctx, 2, 12, wholerun_record)
 
 
